@@ -227,11 +227,17 @@ func cmdRun(args []string) {
 	var kfList []map[string]interface{}
 	for _, id := range kfIDs {
 		what := id
+		owner := pd.ID
 		if f := kf.get(id); f != nil {
 			what = f.What
+			owner = f.Property
 		}
-		fmt.Printf("KNOWN-FINDING: property=%s %s: %s\n", pd.ID, id, what)
-		kfList = append(kfList, map[string]interface{}{"id": id, "reproduced": true})
+		if owner == pd.ID {
+			fmt.Printf("KNOWN-FINDING: property=%s %s: %s\n", pd.ID, id, what)
+		}
+		// a finding listed under another property whose region this property's instances re-enter (re-used harnesses)
+		// is reported by that property's own check; here its region is only excluded (and recorded in the evidence)
+		kfList = append(kfList, map[string]interface{}{"id": id, "reproduced": true, "listed_under": owner})
 	}
 	ev.cov["known_findings"] = kfList
 	ev.cov["unconfirmed_models"] = unconfirmed
@@ -475,7 +481,11 @@ func replayCandidates(prop string, cands []*candidate, kf *KFFile) ([]*candidate
 	byTags := map[string][]*candidate{}
 	for i, c := range cands {
 		c.path = filepath.Join(dir, fmt.Sprintf("%s-%d.json", c.harness, i))
-		rf := map[string]interface{}{"harness": c.harness, "cfg": c.cfg, "model": ringModel(c.model, c.ring, c.cfg), "assert": c.assert, "kf_open": open, "instance": c.inst}
+		hname := c.harness
+		if strings.HasPrefix(hname, "@asm:") {
+			hname = "vhC20Divmod" // counterexamples of the assembly encoding are replayed against the real assembly
+		}
+		rf := map[string]interface{}{"harness": hname, "cfg": c.cfg, "model": ringModel(c.model, c.ring, c.cfg), "assert": c.assert, "kf_open": open, "instance": c.inst}
 		b, _ := json.MarshalIndent(rf, "", " ")
 		os.WriteFile(c.path, b, 0o644)
 		tg, _ := c.cfg["tags"].(string)
@@ -639,6 +649,9 @@ func validate(pd *propDef, results []InstResult, n int, seed int64) (int, []stri
 			if len(r.NDNames) > 0 && r.Err == "" && len(r.Aborted) == 0 {
 				kernelRes = append(kernelRes, r)
 			}
+			continue
+		}
+		if strings.HasPrefix(r.Inst.Harness, "@asm:") {
 			continue
 		}
 		if len(r.NDNames) > 0 && r.Err == "" {
